@@ -190,6 +190,45 @@ def run_case(ri):
     return probs
 
 
+def fun_pole(x):
+    # odd, exactly rounded operations only (division included), simple poles at +-1: close to a pole the estimates from the large
+    # steps are wild and the selection of the target's estimate relies on the per-column outlier penalty
+    return x / (x * x - 1.0)
+
+
+POLE_TARGETS = [1.0 - 0.004 * k - 0.000960424903905 for k in range(3, 28)] + [1.0 + 0.004 * k + 0.00071 for k in range(3, 28)]
+POLE_OTHERS = ([0.0], [0.5], [0.0, 2.5], [-0.25, 0.0, 3.0])
+
+
+POLE_CFGS = [(2, 2), (2, 4), (4, 2), (4, 4)]
+
+
+def run_pole(no):
+    """fixed family (not sampled): a target next to a pole TOGETHER with a neighbour whose estimates all coincide (x = 0 for an odd
+    function and even n: every central estimate is exactly 0, the column's inter-quartile range is 0) or that is benign; value,
+    error estimate and final step of the target must be bit-identical to its evaluation alone as a scalar"""
+    vlib.use_repo()
+    import numdifftools as nd
+    n, o = no
+    out = []
+    same = lambda a, b: np.asarray(a).tobytes() == np.asarray(b).tobytes()
+    for t in POLE_TARGETS:
+        try:
+            with np.errstate(all='ignore'):
+                v0, i0 = nd.Derivative(fun_pole, n=n, method='central', order=o, full_output=True)(t)
+                for others in POLE_OTHERS:
+                    v, i = nd.Derivative(fun_pole, n=n, method='central', order=o, full_output=True)(np.array([t] + others))
+                    for name, a, b in (('value', v[0], v0), ('error_estimate', np.ravel(i.error_estimate)[0], np.ravel(i0.error_estimate)[0]),
+                                       ('final_step', np.ravel(i.final_step)[0], np.ravel(i0.final_step)[0])):
+                        if not same(a, np.asarray(b).reshape(())):
+                            out.append((t, others, 'pole: %s of x = %r (f = x/(x*x-1), central n=%d order=%d) is %r with the neighbours %r, %r alone as a scalar'
+                                        % (name, t, n, o, float(a), others, float(np.asarray(b).reshape(())))))
+                            break
+        except Exception as ex:
+            out.append((t, None, 'raises: pole family: %s: %s' % (type(ex).__name__, str(ex)[:150])))
+    return len(POLE_TARGETS) * len(POLE_OTHERS), out
+
+
 def run(tier, rep):
     global RECS
     seed = vlib.seed_from_env()
@@ -215,6 +254,12 @@ def run(tier, rep):
         name = 'shape=%s pos=%s layout=%s others=%s | %s n=%d order=%d' % (r['shape'], r['pos'], r['layout'], r['others'], r['m'], r['n'], r['o'])
         for p in probs[:1]:
             rep.violation(p.split(':')[0] + ':' + r['m'], dict(case=r), '%s: %s' % (name, p))
+    npole = 0
+    for no, (cnt, bad) in zip(POLE_CFGS, vlib.pool_map(run_pole, POLE_CFGS, chunksize=1)):
+        npole += cnt
+        for t, others, p in bad[:1]:
+            rep.violation(p.split(':')[0] + ':central', dict(case=dict(family='pole', n=no[0], o=no[1], x=t, others=others)), p)
+    n += npole
     # the column clause at design level: Pipeline.InvRecord
     pcfg = "CONSTANTS\n  SMax = 12\n  EmitOn = FALSE\nSPECIFICATION Spec\nCHECK_DEADLOCK FALSE\nINVARIANT InvRows\nINVARIANT InvRecord\n"
     pres = vlib.tlc('Pipeline', cfg_text=pcfg, tag='Pipeline_c08')
@@ -224,7 +269,7 @@ def run(tier, rep):
     cov = dict(states=states, transitions=trans, traces_validated_against_impl=n, samples=[recs[0], recs[-1]], evaluations=4 * n,
                distinct_nontrivial=len({(tuple(r['shape']), tuple(r['pos']), r['layout'], r['others'], r['m'], r['n'], r['o']) for r in recs if r['size'] > 1}),
                exhaustive=tier != 'quick',
-               rule='TLC: 12 shapes x 3 positions x 4 layouts x 3 replacement modes x 5 methods x n 1..4 x orders {2,4}; quick replays every (shape, layout, mode) once plus 900 seeded cases, thorough all; non-trivial = more than one element',
+               rule='TLC: 12 shapes x 3 positions x 4 layouts x 3 replacement modes x 5 methods x n 1..4 x orders {2,4}; quick replays every (shape, layout, mode) once plus 900 seeded cases, thorough all; non-trivial = more than one element; plus the fixed pole family (50 targets next to the poles of x/(x*x-1) x 4 neighbour sets x n {2,4} x order {2,4}, every tier, every seed)',
                tlc=per)
     assum = ['test function x*x*x/4 + sqrt(x+1/2)*x uses exactly rounded operations only', 'args/kwds forwarding is validated with the evaluation traces of C05 (token field)']
     return cov, assum
